@@ -79,10 +79,10 @@ def storeLine (st : StoreSt) (line : String) : StoreSt :=
     else setErr st s!"encryption wiring '{name}': expected {want}, observed {got}"
   | ["S", "CFGM", kind, p, dk, ek, got] =>
     let cl (x : String) : String := if x == "-" then "" else x
-    let want := if kind == "option" then C17.withEncryptionClass (cl dk) else C17.fromURLClass (cl p) (cl dk) (cl ek)
+    let want := if kind == "option" then C17.withEncryptionClass (cl dk) else C17.fromURLClass kind p (cl dk) (cl ek)
     if want == got then st
-    else if got == "plain" && kind == "dsn" && cl p != "" && cl p != "off" then
-      setErr st s!"a DSN with encrypt={cl p} (encrypt_key: {dk}, environment key: {ek}) opened a store that writes plaintext"
+    else if got == "plain" && kind != "option" && p != "-" && p != "off" then
+      setErr st s!"a DSN ({kind}) with encrypt={p} (encrypt_key: {dk}, environment key: {ek}) opened a store that writes plaintext"
     else if got == "plain" then setErr st s!"encryption requested by {kind} (key: {dk}, environment key: {ek}) and the store writes plaintext"
     else setDiff st s!"encryption wiring: {kind} encrypt={p} encrypt_key={dk} environment={ek}: the model (C17.fromURL) says {want}, observed {got}"
   | ["S", "SCAN", k, leak] => if leak == "true" then setErr st s!"a file contains a plaintext fragment of the value of {shw (unhex k)}" else st
